@@ -1,7 +1,9 @@
 #!/usr/bin/env python3
 """Run exactly the pinned stable tests (BASELINE.json stable_pass) of a SamehadaDB tree.
 usage: run_stable.py [repo_root]   (default /repo). exit 0 iff all stable tests pass."""
-import json, collections, subprocess, sys, os, concurrent.futures
+import json, collections, subprocess, sys, os, concurrent.futures, fcntl
+# one suite at a time on this machine (the suite is CPU-hungry and has timing-sensitive tests)
+_lock = open('/tmp/stable_suite.lock', 'w'); fcntl.flock(_lock, fcntl.LOCK_EX)
 root = sys.argv[1] if len(sys.argv) > 1 else '/repo'
 b = json.load(open('/root/.vp/BASELINE.json'))
 d = collections.defaultdict(list)
